@@ -361,6 +361,13 @@ def units(tier):
     from props import c12_nvector as NVX
     us += NVX.units(tier)
     _wrap(us, "C12.nvector.arithmetic_kernels_elementwise_and_in_lockstep", NVX.unit_arith_kernels)
+    from props import c12_cvode as CV
+    _wrap(us, "C12.cvode.error_weights_SS==1/(rtol*|y|+atol)", CV.unit_error_weights, "SS")
+    _wrap(us, "C12.cvode.error_weights_SV==1/(rtol*|y|+atol)", CV.unit_error_weights, "SV")
+    _wrap(us, "C12.cvode.local_error_test_accepts_iff_dsm<=1", CV.unit_error_test)
+    _wrap(us, "C12.cvode.CVHandleNFlag_flags", CV.unit_handle_nflag)
+    _wrap(us, "C12.cvode.step_completed_only_after_its_error_test_passed", CV.unit_step)
+    _wrap(us, "C12.cvode.CVRestore_undoes_CVPredict", CV.unit_restore)
     return us
 
 
